@@ -1,4 +1,4 @@
-import Qv.Model.Heap
+import Qv.Model.HeapArith
 /-!
 # Qv.Model.HeapHist — histories of API calls over the explicit heap, and the canonical sharing graph
 
@@ -33,6 +33,20 @@ inductive Op
   | client (i : Nat)                                   -- the client changes the *contents* of cells it reaches from `env[i]`
                                                        -- (no new containers: the graph stays; what such writes can do is T19.B)
   | sub (i : Nat) (path : List Nat)                    -- `env[i]…[k]…` : a sub-object picked out of a container
+  | set                                                -- `set()` (the `nodes` of `subgraph`)
+  | iupd (recv : Nat) (other : Option Nat) (u : Upd)   -- `env[recv] += env[other]`, `-=`, `*= c`, `/= c`, `//= c`, `.normalize()`
+  | imulDict (recv other : Nat) (u : Upd)              -- `env[recv] *= env[other]`
+  | ipow (recv : Nat) (us : List Upd)                  -- `env[recv] **= us.length + 1`
+  | clear (recv : Nat)                                 -- `env[recv].clear()`
+  | refresh (recv : Nat)                               -- `env[recv].refresh()`
+  | binop (a : Nat) (other : Option Nat) (u : Upd)     -- `env[a] + env[other]`, `-`, `/ c`, `// c`, `* c`, `c * env[a]`, `-env[a]`
+  | rsub (a : Nat) (other : Option Nat) (u1 u2 : Upd)  -- `env[other] - env[a]`
+  | mulDict (a b : Nat) (u : Upd)                      -- `env[a] * env[b]`
+  | pow (a : Nat) (us : List Upd)                      -- `env[a] ** (us.length + 1)`
+  | rebuild (a : Nat) (pl : Payload)                   -- `round(env[a], n)`, `env[a].subs(…)`
+  | newLike (a : Nat) (extras : List Nat) (pl : Payload)   -- `normalize(env[a])`, `subgraph(env[a], …)`, `subvalue(…, env[a])`
+  | readOnly (args : List Nat) (res : Bool)            -- `*_value`, `approximate_*_extrema`, `anneal_temperature_range`; `convert_solution` (`res`)
+  | sat (first : Option Nat) (others : List Nat) (u : Upd)   -- a `qubovert.sat` gate
 
 structure HState where
   heap : Heap := []
@@ -82,11 +96,17 @@ def graph (h : Heap) (roots : List Nat) : List (String × List Nat) :=
     | some c => (c.typeName, c.refs.map (indexIn order))
     | none => ("?", []))
 
-/-- the write footprint of `mut` -/
-def mutFootprint (h : Heap) (o : Nat) : List Nat :=
-  match h[o]? with
-  | some (.obj _ m rm v _) => o :: (m.toList ++ rm.toList ++ [v])
-  | _ => [o]
+def lookupOpt (env : List Nat) : Option Nat → Option (Option Nat)
+  | none => some none
+  | some j => (match env[j]? with | some r => some (some r) | none => none)
+
+def lookupAll (env : List Nat) (l : List Nat) : Option (List Nat) := l.mapM (fun j => env[j]?)
+
+/-- a call that changes its receiver in place: new heap, same variables, the given footprint -/
+def inPlace (s : HState) (w : List Nat) (r : Option Heap) : Option (HState × List Nat) :=
+  match r with
+  | none => none
+  | some h => some ({ s with heap := h }, w)
 
 def pushRes (s : HState) (r : Option (Heap × Nat)) : Option (HState × List Nat) :=
   match r with
@@ -168,5 +188,46 @@ def stepH (F : Ctor) (s : HState) : Op → Option (HState × List Nat)
       match follow s.heap o path with
       | none => none
       | some q => some ({ s with env := s.env ++ [q] }, [])
+  | .set => pushRes s (some (alloc s.heap (.set [])))
+  | .iupd recv other u =>
+    match s.env[recv]?, lookupOpt s.env other with
+    | some r, some o => inPlace s (mutFootprint s.heap r) (iupdH s.heap r o u)
+    | _, _ => none
+  | .imulDict recv other u =>
+    match s.env[recv]?, s.env[other]? with
+    | some r, some o => inPlace s [r] (imulDictH s.heap r o u)
+    | _, _ => none
+  | .ipow recv us => match s.env[recv]? with | none => none | some r => inPlace s [r] (ipowH F s.heap r us)
+  | .clear recv => match s.env[recv]? with | none => none | some r => inPlace s [r] (clearH s.heap r)
+  | .refresh recv => match s.env[recv]? with | none => none | some r => inPlace s [r] (refreshH F s.heap r)
+  | .binop a other u =>
+    match s.env[a]?, lookupOpt s.env other with
+    | some r, some o => pushRes s (binopH F s.heap r o u)
+    | _, _ => none
+  | .rsub a other u1 u2 =>
+    match s.env[a]?, lookupOpt s.env other with
+    | some r, some o => pushRes s (rsubH F s.heap r o u1 u2)
+    | _, _ => none
+  | .mulDict a b u =>
+    match s.env[a]?, s.env[b]? with
+    | some r, some o => pushRes s (mulDictH F s.heap r o u)
+    | _, _ => none
+  | .pow a us => match s.env[a]? with | none => none | some r => pushRes s (powH F s.heap r us)
+  | .rebuild a pl => match s.env[a]? with | none => none | some r => pushRes s (rebuildH F s.heap r pl)
+  | .newLike a extras pl =>
+    match s.env[a]?, lookupAll s.env extras with
+    | some r, some ex => pushRes s (newLikeH s.heap r ex pl)
+    | _, _ => none
+  | .readOnly args res =>
+    match lookupAll s.env args with
+    | none => none
+    | some l =>
+      match readOnlyH s.heap l (if res then 1 else 0) with
+      | none => none
+      | some (h, rs) => some ({ heap := h, env := s.env ++ rs }, [])
+  | .sat first others u =>
+    match lookupOpt s.env first, lookupAll s.env others with
+    | some f, some os => pushRes s (satH F s.heap f os u)
+    | _, _ => none
 
 end Qv.Hp
